@@ -72,6 +72,8 @@ def run(ctx):
             ctx.violation({"kind": "witness-rejected-by-real-parser", "case": r})
         if r["fired"]:
             nonempty += 1
+    for r in [r for r in rows if r.get("panic")][:3]:
+        ctx.violation({"kind": "real-parser-panics", "case": r, "explain": "grammar.Parser over BQL() panicked: " + r["panic"]})
     bad = model_mismatches(ctx, "cases_c17", rows)
     for i in bad[:5]:
         ctx.violation({"kind": "parser-model-vs-real-parser", "case": rows[i],
